@@ -104,15 +104,15 @@ func c05OneInFlight(c *Check, P string, r *GCRoles) {
 func c05BlockWait(c *Check, P string, r *GCRoles) {
 	Pub := r.Publish
 	fans := Callers([]*ssa.Function{Pub}, r.Fan)
-	waits := Callers([]*ssa.Function{Pub}, r.Wait)
-	if !c.Floor(P+".O2", "fan-out call in Publish", len(fans), 1) || !c.Floor(P+".O2", "wait-helper call in Publish", len(waits), 1) {
+	waits := r.waitSitesInPublish()
+	if !c.Floor(P+".O2", "fan-out call in Publish", len(fans), 1) || !c.Floor(P+".O2", "wait for the subscribers' acks in Publish", len(waits), 1) {
 		return
 	}
 	_, blockFalse := BoolEdges(Pub, exportedFieldLoad("BlockPublishUntilSubscriberAck"))
 	c.Floor(P+".O2", "test of BlockPublishUntilSubscriberAck", len(blockFalse), 1)
 	for i, f := range fans {
 		k := fmt.Sprintf("fan-out call#%d", i)
-		cut := NewCut().AddInstrs(instrsOf(waits)...).AddEdges(blockFalse...)
+		cut := NewCut().AddInstrs(waits...).AddEdges(blockFalse...)
 		re := ReachAfter(f, cut)
 		ok := true
 		var wit []string
@@ -135,40 +135,51 @@ func c05BlockWait(c *Check, P string, r *GCRoles) {
 		}
 		c.Report(ok, P+".O2", "BLOCK-WAIT", Pub, f.Pos(), k, "in blocking mode every message is waited for before the next one is sent or Publish returns successfully", wit...)
 		// the wait gets this fan-out's completion channel
+		isDone := func(v ssa.Value) bool { return AllOrigins(v, func(o ssa.Value) bool { return IsResultOf(o, f, 0) }) }
 		for _, w := range waits {
 			okA := false
-			for _, a := range w.Common().Args {
-				if AllOrigins(a, func(v ssa.Value) bool { return IsResultOf(v, f, 0) }) {
-					okA = true
+			if call, isCall := w.(ssa.CallInstruction); isCall {
+				for _, a := range call.Common().Args {
+					if isDone(a) {
+						okA = true
+					}
+				}
+			} else if sel, isSel := w.(*ssa.Select); isSel {
+				for _, st := range sel.States {
+					if isDone(st.Chan) {
+						okA = true
+					}
 				}
 			}
-			c.Report(okA, P+".O2", "WAIT-FOR-THIS-MESSAGE", Pub, w.Pos(), k, "the wait helper receives the completion channel of the fan-out just started")
+			c.Report(okA, P+".O2", "WAIT-FOR-THIS-MESSAGE", Pub, w.Pos(), k, "the wait listens on the completion channel of the fan-out just started")
 		}
-		// the loop covers all copies: argument checked in C04.O5
 	}
-	// W: a blocking select over exactly {its channel parameter, the closing signal}
-	W := r.Wait
-	sels := Selects(W)
-	if c.Floor(P+".O2", "select in the wait helper", len(sels), 1) {
+	// a blocking select (no default) over exactly {the completion channel, the closing signal}
+	sels := r.waitSelects()
+	if c.Floor(P+".O2", "select waiting for the acks", len(sels), 1) {
 		for _, si := range sels {
 			okShape := si.Blocking && len(si.Cases) == 2
-			hasParam, hasClosing := false, false
+			hasDone, hasClosing := false, false
 			for _, cs := range si.Cases {
 				if cs.Send {
 					okShape = false
 				}
 				ck := ClassifyChan(cs.Chan)
-				if ck.Kind == "param" {
-					hasParam = true
-				}
-				if ck.Kind == "field" && ck.Field == r.Closing {
+				switch {
+				case ck.Kind == "field" && ck.Field == r.Closing:
 					hasClosing = true
+				case ck.Kind == "param" && !r.WaitInline:
+					hasDone = true
+				case r.WaitInline && AllOrigins(cs.Chan, ResultOfAny(fans, 0)):
+					hasDone = true
 				}
 			}
-			c.Report(okShape && hasParam && hasClosing, P+".O2", "WAIT-SHAPE", W, si.Sel.Pos(), "wait select", "the wait is a blocking select (no default) over exactly the completion channel and the Pub/Sub's closing signal")
+			c.Report(okShape && hasDone && hasClosing, P+".O2", "WAIT-SHAPE", r.Wait, si.Sel.Pos(), "wait select", "the wait is a blocking select (no default) over exactly the completion channel and the Pub/Sub's closing signal")
 		}
-		bo := BlockingOps(W)
-		c.Report(len(bo) == len(sels), P+".O2", "WAIT-ONLY-SELECT", W, W.Pos(), "wait helper", "the wait helper contains no other blocking operation")
+		if !r.WaitInline {
+			bo := BlockingOps(r.Wait)
+			c.Report(len(bo) == len(sels), P+".O2", "WAIT-ONLY-SELECT", r.Wait, r.Wait.Pos(), "wait helper", "the wait helper contains no other blocking operation")
+		}
 	}
 }
 
@@ -263,7 +274,9 @@ func c05AckedByAll(c *Check, P string, r *GCRoles) {
 
 func c05NoLockAcrossWait(c *Check, P string, r *GCRoles) {
 	W := r.Wait
-	for i, si := range Selects(W) {
+	c.RoleKeys = true
+	defer func() { c.RoleKeys = false }()
+	for i, si := range r.waitSelects() {
 		held := r.LA.Held(si.Sel)
 		_, has := held[r.idSubs]
 		c.Report(!has, P+".O4", "NO-LOCK-ACROSS-WAIT", W, si.Sel.Pos(), fmt.Sprintf("blocking-publish wait helper: select#%d waiting for subscriber acks", i),
